@@ -19,10 +19,12 @@ CONSTANTS
   GraftNeedsStream = TRUE
   ApiSkipsIfPresent = FALSE
   DrainAfterClose = FALSE
+  PurgeNeedsRtPeer = FALSE
 INVARIANT TypeOK
 INVARIANT P_C16_NoInject
 INVARIANT P_C16_Refuse
 INVARIANT P_C16_Api
 INVARIANT P_C16_ApiQueue
+INVARIANT P_C16_ApiHadQueue
 VIEW MCView
 CHECK_DEADLOCK FALSE
